@@ -1304,6 +1304,8 @@ def remove_redundant_transpose_add_forests_ir(graph: ir.Graph) -> None:
                     continue
                 if t_out.is_graph_output():
                     continue
+                if _nested_graph_references_value(live_nodes, t_out):
+                    continue
                 removable_inputs.append(in_transpose)
             if removable_inputs:
                 graph.remove(removable_inputs)
@@ -2634,6 +2636,10 @@ def remove_orphan_transposes_ir(graph: ir.Graph) -> None:
                     is_live = True
                     break
                 if _has_named_consumer(nodes, producer=node, output_name=out_name):
+                    is_live = True
+                    break
+                if _nested_graph_references_value(nodes, out):
+                    # Only read inside a Loop/If body (implicit capture).
                     is_live = True
                     break
 
